@@ -493,7 +493,9 @@ def main():
     fn_tags = {}
     byid = {o["id"]: o for o in meta["obligations"]}
     for o in meta["obligations"]:
-        if not o.get("fallback"):
+        # what an untagged hint of a function can support: its own clauses and tagged hints - not its `requires` (they are
+        # obligations of the callers)
+        if not o.get("fallback") and o["kind"] != "requires":
             fn_tags.setdefault(o["fn"], set()).update(o["tags"])
     site_clause = r.get("site_clause", {})
     mine = []
